@@ -23,6 +23,7 @@
 From Coq Require Import Permutation ZArith QArith Qcanon.
 From AV Require Import Base.Prelude Model.AvgSpec Model.Seq Proofs.SeqProofs Proofs.OrderProofs.
 From AV Require Model.L1D Proofs.OrderL1D.
+Local Open Scope nat_scope.
 
 (* ---------------- SequenceLearner ---------------- *)
 (* telling results for distinct indices in any order, or all in one tell_many,
@@ -45,12 +46,12 @@ Proof. exact avg_order_irrelevant. Qed.
 Theorem C11_avg_order_irrelevant_Z : forall (s : AvgSpec.st Z) (l1 l2 : list (nat * Z)),
   NoDup (map fst l1) -> Permutation l1 l2 ->
   AvgSpec.tell_many Z.add Z.mul s l1 = AvgSpec.tell_many Z.add Z.mul s l2.
-Proof. exact (avg_order_irrelevant Z.mul AddLaws_Z). Qed.
+Proof. exact (avg_order_irrelevant Z Z.add Z.mul AddLaws_Z). Qed.
 
 Theorem C11_avg_order_irrelevant_Qc : forall (s : AvgSpec.st Qc) (l1 l2 : list (nat * Qc)),
   NoDup (map fst l1) -> Permutation l1 l2 ->
   AvgSpec.tell_many Qcplus Qcmult s l1 = AvgSpec.tell_many Qcplus Qcmult s l2.
-Proof. exact (avg_order_irrelevant Qcmult AddLaws_Qc). Qed.
+Proof. exact (avg_order_irrelevant Qc Qcplus Qcmult AddLaws_Qc). Qed.
 
 (* a result for an already known seed is ignored (first value kept) *)
 Theorem C11_avg_repeated_seed_ignored : forall (num : Type) (add mul : num -> num -> num)
@@ -66,7 +67,7 @@ Theorem C11_avg_state_function_of_data : forall (num : Type) (add mul : num -> n
   s = AvgSpec.canon add mul zero (AvgSpec.data s) (AvgSpec.pend s).
 Proof.
   intros num add mul zero AL l.
-  exact (avg_state_function_of_data mul AL (AvgSpec.init zero) l (is_canon_init add mul zero)).
+  exact (avg_state_function_of_data num add mul zero AL (AvgSpec.init zero) l (is_canon_init num add mul zero)).
 Qed.
 
 (* ---------------- Learner1D: data-level components ---------------- *)
@@ -79,7 +80,7 @@ Section L1D.
   Variable Lf : list (option num) -> list (option (Y num)) -> num.
   Variable P : params num.
 
-  Notation tell1 := (OrderL1D.tell1 sub mul div ltb eqb zero one inf neg_inf is_nan is_inf round12 Lf P).
+  Notation tell1 := (OrderL1D.tell1 num sub mul div ltb eqb zero one inf neg_inf is_nan is_inf round12 Lf P).
   Notation tell_many := (@L1D.tell_many num sub mul div ltb eqb zero one inf neg_inf is_nan is_inf round12 Lf P).
 
   Theorem C11_l1d_partial : OrdLaws ltb eqb is_nan ->
@@ -90,7 +91,7 @@ Section L1D.
     bbx s1 = bbx s2 /\ bby s1 = bby s2 /\ sx s1 = sx s2 /\ sy s1 = sy s2.
   Proof.
     intros OL s l1 l2 HW HP.
-    pose proof (l1d_data_level_order_irrelevant sub mul div zero one inf neg_inf is_inf round12 Lf P OL s HW HP) as H.
+    pose proof (l1d_data_level_order_irrelevant num sub mul div ltb eqb zero one inf neg_inf is_nan is_inf round12 Lf P OL s l1 l2 HW HP) as H.
     unfold proj in H. inversion H. repeat split; assumption.
   Qed.
 
@@ -99,7 +100,7 @@ Section L1D.
     NoDup (map fst xys) -> (forall x, In x (map fst xys) -> dget eqb x (data s) = None) ->
     data (tell_many s xys force) = data (fold_left tell1 xys s) /\
     pend (tell_many s xys force) = pend (fold_left tell1 xys s).
-  Proof. exact (l1d_batch_data_pend sub mul div zero one inf neg_inf is_inf round12 Lf P). Qed.
+  Proof. exact (l1d_batch_data_pend num sub mul div ltb eqb zero one inf neg_inf is_nan is_inf round12 Lf P). Qed.
 End L1D.
 
 (* closed instance: exact rationals, every loss function, every parameters *)
@@ -107,7 +108,7 @@ Theorem C11_l1d_partial_Qc : forall (Lf : list (option Qc) -> list (option (L1D.
   (P : L1D.params Qc) (inf neg_inf : Qc) (round12 : Qc -> Qc)
   (s : L1D.st Qc) (l1 l2 : list (Qc * L1D.Y Qc)),
   Pairwise (@OrderL1D.related Qc) l1 -> Permutation l1 l2 ->
-  let t := OrderL1D.tell1 Qcminus Qcmult Qcdiv OrderL1D.Qc_ltb OrderL1D.Qc_eqb (Q2Qc 0) (Q2Qc 1) inf neg_inf
+  let t := OrderL1D.tell1 Qc Qcminus Qcmult Qcdiv OrderL1D.Qc_ltb OrderL1D.Qc_eqb (Q2Qc 0) (Q2Qc 1) inf neg_inf
              (fun _ => false) (fun _ => false) round12 Lf P in
   let s1 := fold_left t l1 s in let s2 := fold_left t l2 s in
   L1D.data s1 = L1D.data s2 /\ L1D.pend s1 = L1D.pend s2 /\ L1D.nb s1 = L1D.nb s2 /\
@@ -115,7 +116,7 @@ Theorem C11_l1d_partial_Qc : forall (Lf : list (option Qc) -> list (option (L1D.
   L1D.sx s1 = L1D.sx s2 /\ L1D.sy s1 = L1D.sy s2.
 Proof.
   intros Lf P inf neg_inf round12.
-  exact (C11_l1d_partial Qcminus Qcmult Qcdiv (Q2Qc 0) (Q2Qc 1) inf neg_inf (fun _ => false) round12 Lf P
+  exact (C11_l1d_partial Qc Qcminus Qcmult Qcdiv OrderL1D.Qc_ltb OrderL1D.Qc_eqb (Q2Qc 0) (Q2Qc 1) inf neg_inf (fun _ => false) (fun _ => false) round12 Lf P
            OrderL1D.OrdLaws_Qc).
 Qed.
 
@@ -150,7 +151,7 @@ Definition ex_L (xs : list (option Z)) (ys : list (option (L1D.Y Z))) : Z :=
   | _, _ => 0%Z
   end.
 Definition ex_P : L1D.params Z := L1D.mkparams 0%Z 64%Z 0%Z 0 1%Z.
-Definition ex_tell := OrderL1D.tell1 Z.sub Z.mul Z.div Z.ltb Z.eqb 0%Z 1%Z 1000000%Z (-1000000)%Z
+Definition ex_tell := OrderL1D.tell1 Z Z.sub Z.mul Z.div Z.ltb Z.eqb 0%Z 1%Z 1000000%Z (-1000000)%Z
                         (fun _ => false) (fun _ => false) (fun x => x) ex_L ex_P.
 Definition ex_pending := L1D.tell_pending Z.sub Z.mul Z.div Z.ltb Z.eqb 0%Z 1%Z 1000000%Z ex_L ex_P.
 Definition ex_start : L1D.st Z :=
